@@ -211,9 +211,87 @@ void vf_harness(void)
                            "expect": r"assertion"}])
 
 
+def unit_accumulate(kind):
+    """what one pair contributes to the accumulators (AVario::_evaluateVariogram / _evaluateCovariance + Vario::_setResult)"""
+    BOOL = "typedef _Bool bool;\n#define true 1\n#define false 0\n"
+    pre = BOOL + """
+#define ABS(a) (((a) < 0.) ? -(a) : (a))
+#define DECLARE_UNUSED(...)
+#define IDIRLOC 0
+#define NVAR %d
+#define NADR 16
+double GG[NADR], HH[NADR], SW[NADR];
+double __CPROVER_uninterpreted_z(int, int); double __CPROVER_uninterpreted_w(int); double __CPROVER_uninterpreted_mean(int);
+static double _getIVAR(int db, int iech, int ivar) { return __CPROVER_uninterpreted_z(iech, ivar); }
+static double VF_getWeight(int iech) { return __CPROVER_uninterpreted_w(iech); }
+static double getMean(int ivar) { return __CPROVER_uninterpreted_mean(ivar); }
+static bool FFFF(double v) { return v > 1.0e30 || v != v; }
+/* address of the accumulator of (variable pair, lag, orientation): distinct for distinct arguments (Vario::getDirAddress trusted) */
+static int VF_adr(int ivar, int jvar, int orient) { return (ivar * NVAR + jvar) * 3 + (orient + 1); }
+double __CPROVER_uninterpreted_acc(double, double);        /* accumulator + increment (floating-point sum kept symbolic) */
+#define ACC(a, v) __CPROVER_uninterpreted_acc(a, v)
+static void updateGgByIndex(int idir, int i, double v, bool f) { __CPROVER_assert(0 <= i && i < NADR, "accumulator address"); GG[i] = ACC(GG[i], v); }
+static void updateHhByIndex(int idir, int i, double v, bool f) { __CPROVER_assert(0 <= i && i < NADR, "accumulator address"); HH[i] = ACC(HH[i], v); }
+static void updateSwByIndex(int idir, int i, double v, bool f) { __CPROVER_assert(0 <= i && i < NADR, "accumulator address"); SW[i] = ACC(SW[i], v); }
+""" % (2 if kind == "variogram" else 1)
+    setres = Fn("Vario::_setResult", VA, r"^void Vario::_setResult\(int iech1,[^{]*?double value\)\s*$",
+                csig="void _setResult(int iech1, int iech2, int nvar, int ipas, int ivar, int jvar, int orient, double ww, double dist, double value)",
+                rewrites=[(r"getDirAddress\(IDIRLOC, ivar, jvar, ipas, false, orient, false\)", "VF_adr(ivar, jvar, orient)", 1),
+                          (r"getCalcul\(\) == ECalcVario::POISSON", "W_poisson", 1)])
+    name = {"variogram": "_evaluateVariogram", "covariance": "_evaluateCovariance"}[kind]
+    ev = Fn("AVario::" + name, "src/Variogram/AVario.cpp", r"^void AVario::%s\(\s*\n\s*Db\* db, int nvar, int iech1, int iech2, int ipas, double dist, bool do_asym\)\s*$" % name,
+            csig="void AVario_evaluate(int db, int nvar, int iech1, int iech2, int ipas, double dist, bool do_asym)",
+            rewrites=[(r"db->getWeight\(", "VF_getWeight(", 2)])
+    if kind == "variogram":
+        body = """
+      if (!FFFF(z11) && !FFFF(z12) && !FFFF(z21) && !FFFF(z22)) {
+        double value = (z12 - z11) * (z22 - z21) / 2.;
+        int a = VF_adr(iv, jv, 0);
+        eg[a] = ACC(eg[a], scale * value); if (W_poisson) eg[a] = ACC(eg[a], -__CPROVER_uninterpreted_mean(iv) / 2.); eh[a] = ACC(eh[a], scale * d); es[a] = ACC(es[a], scale); }"""
+        what = ("variogram: a pair contributes, for every variable pair whose four values are defined, w1 w2 (z_i(2) - z_i(1)) (z_j(2) - z_j(1)) / 2 to the variogram "
+                "accumulator, w1 w2 |distance| to the distance accumulator and w1 w2 to the weight accumulator of that pair and lag")
+    else:
+        body = """
+      if (!FFFF(z11) && !FFFF(z12)) {
+        if (!FFFF(z22)) { double value = z11 * z22; int a = VF_adr(iv, jv, orient);
+          eg[a] = ACC(eg[a], scale * value); if (W_poisson) eg[a] = ACC(eg[a], -__CPROVER_uninterpreted_mean(iv) / 2.); eh[a] = ACC(eh[a], scale * d); es[a] = ACC(es[a], scale); }
+        if (!FFFF(z21) && W_asym) { double value = z12 * z21; int a = VF_adr(iv, jv, -orient);
+          eg[a] = ACC(eg[a], scale * value); if (W_poisson) eg[a] = ACC(eg[a], -__CPROVER_uninterpreted_mean(iv) / 2.); eh[a] = ACC(eh[a], scale * d); es[a] = ACC(es[a], scale); } }"""
+        what = ("covariance: z_i(1) z_j(2) goes to the accumulator of the pair's orientation and, in asymmetric mode, z_i(2) z_j(1) to the opposite orientation, each "
+                "weighted by w1 w2, with w1 w2 |distance| and w1 w2 alongside")
+    h = """
+#define SAMED(x, y) ((x) == (y) || ((x) != (x) && (y) != (y)))
+void vf_harness(void)
+{
+  vf_havoc_inputs();
+  double eg[NADR], eh[NADR], es[NADR];
+  for (int k = 0; k < NADR; k++) { GG[k] = W_g0[k]; HH[k] = W_h0[k]; SW[k] = W_s0[k]; eg[k] = GG[k]; eh[k] = HH[k]; es[k] = SW[k]; }
+  AVario_evaluate(0, NVAR, W_i1, W_i2, W_ipas, W_dist, W_asym);
+  double w1 = __CPROVER_uninterpreted_w(W_i1), w2 = __CPROVER_uninterpreted_w(W_i2);
+  if (!FFFF(w1) && !FFFF(w2)) {
+    int orient = (W_dist > 0) ? 1 : -1; double d = ABS(W_dist); double scale = w1 * w2;
+    for (int iv = 0; iv < NVAR; iv++) for (int jv = 0; jv <= iv; jv++) {
+      double z11 = __CPROVER_uninterpreted_z(W_i1, iv), z12 = __CPROVER_uninterpreted_z(W_i2, iv), z21 = __CPROVER_uninterpreted_z(W_i1, jv), z22 = __CPROVER_uninterpreted_z(W_i2, jv);%s
+    } }
+  for (int k = 0; k < NADR; k++)
+    __CPROVER_assert(SAMED(GG[k], eg[k]) && SAMED(HH[k], eh[k]) && SAMED(SW[k], es[k]), "every accumulator holds what the pairwise definition adds for this pair (and the others are untouched)");
+  VF_REACH();
+}
+""" % body
+    return Unit("C12.accumulate.%s" % kind, [setres, ev], prelude=pre, harness=h, pre_inputs=BOOL, unwind=18,
+                inputs=[("int", "W_i1"), ("int", "W_i2"), ("int", "W_ipas"), ("double", "W_dist"), ("bool", "W_asym"), ("bool", "W_poisson"),
+                        ("double", "W_g0", "16"), ("double", "W_h0", "16"), ("double", "W_s0", "16")],
+                checks=["--bounds-check"], backends=("cvc5",), timeout=900,
+                bounded="%d variable(s) (loops unwound with unwinding assertions)" % (2 if kind == "variogram" else 1),
+                claim="AVario::%s + Vario::_setResult, %s; a pair with an undefined weight contributes nothing" % (name, what),
+                assumptions=["values, weights and means are uninterpreted functions of (sample, variable); accumulator addresses distinct per (variable pair, orientation)",
+                             "the obligation is an equality of syntactically identical floating-point terms (closed by cvc5)"],
+                canaries=[{"fn": "Vario::_setResult", "rx": r"updateHhByIndex\(IDIRLOC, i, ww \* dist, false\);", "rp": "updateHhByIndex(IDIRLOC, i, dist, false);", "expect": r"assertion"}])
+
+
 def units(tier):
     nmax = 6 if tier == "quick" else 10
-    return [unit_lagrank_irregular(nmax), unit_lagrank_regular(), unit_pair_skeleton(3 if tier == 'quick' else 4)]
+    return [unit_lagrank_irregular(nmax), unit_lagrank_regular(), unit_pair_skeleton(3 if tier == 'quick' else 4), unit_accumulate('variogram')] + ([unit_accumulate('covariance')] if tier != 'quick' else [])
 
 
 META = {
